@@ -410,6 +410,19 @@ func c10Structural(r *rand.Rand, k int) (blocks []*wire.Block, what string) {
 			query([]wire.Pred{pred(P, vx)}, wire.Expr{{Tag: 0}}),
 			query([]wire.Pred{pred(P, vx)}, wire.Expr{val(vx), {Tag: wire.OUnary, NoKind: true}}),
 			query([]wire.Pred{pred(P, vx)}, wire.Expr{val(vx), val(vx), {Tag: wire.OBinary, NoKind: true}}))
+	case 20:
+		what = "operator kind outside the known range"
+		facts(2)
+		// operator kinds are enums, i.e. signed 32-bit numbers on the wire: unknown, huge and
+		// NEGATIVE kinds (a ten-byte varint) in every position that carries one
+		// (one kind per token: a token is refused as a whole at the first block it cannot convert)
+		for _, k := range []uint64{gen.Pick(r, []uint64{17, 1000, 1<<31 - 1, 1 << 31, 0xFFFFFFFF80000000, ^uint64(16), ^uint64(0), ^uint64(1), 1 << 32})} {
+			what += fmt.Sprintf("; operator kind %d in a later block", k)
+			later := &wire.Block{Context: auth.Context, Version: auth.Version}
+			later.Checks = append(later.Checks, query([]wire.Pred{pred(P, vx)}, wire.Expr{val(vx), val(vx), bin(k)}), query([]wire.Pred{pred(P, vx)}, wire.Expr{val(vx), un(k)}))
+			later.Rules = append(later.Rules, wire.Rule{Head: pred(Q, vx), Body: []wire.Pred{pred(P, vx)}, Exprs: []wire.Expr{{val(vx), val(vx), bin(k)}}})
+			blocks = append(blocks, later)
+		}
 	case 4:
 		what = "unknown operator enum numbers"
 		facts(2)
@@ -503,7 +516,7 @@ func c10Structural(r *rand.Rand, k int) (blocks []*wire.Block, what string) {
 	return blocks, what
 }
 
-const c10NumStructural = 20
+const c10NumStructural = 21
 
 // c10Envelope applies envelope-level hostility to a validly signed token.
 func c10Envelope(r *rand.Rand, t *wire.Token, k int) string {
